@@ -8,6 +8,7 @@ package main
 
 import (
 	"runtime"
+	"runtime/pprof"
 	"flag"
 	"fmt"
 	"os"
@@ -87,6 +88,11 @@ func runMain(args []string) {
 		}
 	}
 	m.SetKnown(kn)
+	if pf := os.Getenv("SYMGO_PROF"); pf != "" {
+		f, _ := os.Create(pf)
+		pprof.StartCPUProfile(f)
+		defer pprof.StopCPUProfile()
+	}
 	t1 := time.Now()
 	res := m.Explore(fn)
 	tRun := time.Since(t1)
